@@ -325,7 +325,8 @@ impl Sys {
                 if let Ok(Ok(d)) = cl.try_get_spending_limit_data(&RULE_ID, &self.acct) {
                     inst = true;
                     limit = self.units(d.spending_limit);
-                    per = d.period_ledgers;
+                    // (u32::MAX, "for the lifetime", is logged as TOP_PER: trace numbers are 32-bit and get subtracted)
+                    per = if d.period_ledgers >= u32::MAX - 1 { (TOP_PER - (u32::MAX - d.period_ledgers) as i64) as u32 } else { d.period_ledgers };
                     cached = self.units(d.cached_total_spent);
                     hn = d.spending_history.len() as usize;
                     for (i, en) in d.spending_history.iter().enumerate() {
@@ -403,7 +404,7 @@ impl Sys {
                     res_of(&weighted::WeightedPolicyClient::new(e, &pol).try_install(&p, &rule, &acct))
                 }
                 Fl::Spending => {
-                    let p = SpendingLimitAccountParams { spending_limit: self.amount(n(op, "amt")), period_ledgers: n(op, "per").max(0) as u32 };
+                    let p = SpendingLimitAccountParams { spending_limit: self.amount(n(op, "amt")), period_ledgers: if n(op, "per") >= TOP_PER - 1 { u32::MAX - (TOP_PER - n(op, "per")) as u32 } else { n(op, "per").max(0) as u32 } };
                     set_auth_same(e, &who, &Inv::new(&pol, "install", args(e, (p.clone(), rule.clone(), acct.clone()))));
                     res_of(&spending::SpendingLimitPolicyContractClient::new(e, &pol).try_install(&p, &rule, &acct))
                 }
@@ -720,6 +721,8 @@ fn drive_weighted(sys: &mut Sys, r: &mut StdRng, len: usize, t: &mut Trace) {
     }
 }
 
+/// model number standing for a period of u32::MAX ledgers
+const TOP_PER: i64 = 1_000_000_000;
 /// see `Sys::amount`
 const FINE: i64 = 1000;
 const AMAX: i64 = 8 * FINE - 1;
@@ -755,7 +758,7 @@ fn drive_spending(sys: &mut Sys, r: &mut StdRng, len: usize, t: &mut Trace) {
                 let mut o = g.op(kind, 0, &au);
                 let l = if big { *pick(g.r, &[0i64, 1, 3 * FINE + 2, 5 * FINE, 7 * FINE, AMAX - 3, AMAX, AMAX, AMAX]) } else { *pick(g.r, &[0i64, 1, 2, 5, 10, 10, 100, 1000]) };
                 o["amt"] = json!(l);
-                o["per"] = json!(*pick(g.r, &[0i64, 1, 1, 2, 2, 3, 5, 8, 20]));
+                o["per"] = json!(*pick(g.r, &[0i64, 1, 1, 2, 2, 3, 5, 8, 20, 20, TOP_PER, TOP_PER - 1]));
                 o
             }
             "set_limit" => {
@@ -784,7 +787,8 @@ fn drive_spending(sys: &mut Sys, r: &mut StdRng, len: usize, t: &mut Trace) {
                     7 => (per - 1).max(0),
                     8 => per,
                     _ => g.r.gen_range(0..=per + 1),
-                };
+                }
+                .min(5000); // (a "lifetime" period must not carry the ledger number out of the 32-bit range of the traces)
                 let au = if kind == "can" { vec![] } else { g.auth(0.9) };
                 let mut o = g.op(kind, dt, &au);
                 // amounts 0 .. limit + 1: exactly what is left, one more, small ones
